@@ -71,6 +71,12 @@ def handle (fn : String) (a : Json) : Option (Except String Json) :=
   | "reverse.requires" => some do
       let sp ← specOfJson (← a.getObjVal? "spec")
       pure (Json.arr (sp.tasks.map fun t => Json.arr #[Json.str t.name, strs (requiresOf sp t)]).toArray)
+  | "reverse.integrity" => some do
+      let sp ← specOfJson (← a.getObjVal? "spec")
+      pure (match checkIntegrity sp with
+        | none => Json.str "ok"
+        | some .taskNotFound => Json.str "task-not-found"
+        | some .requiresCycle => Json.str "requires-cycle")
   | "reverse.needed" => some do
       let sp ← specOfJson (← a.getObjVal? "spec")
       pure (optJson strs (needed sp))
